@@ -32,6 +32,11 @@ def run(ctx, rep):
     except Exception as e:
         import traceback; traceback.print_exc()
         rep.fail("R19.9", "engine", "edge rasteriser analysis crashed: %r" % (e,), status="undecided")
+    try:
+        drain_slots(prog, rep)
+    except Exception as e:
+        import traceback; traceback.print_exc()
+        rep.fail("R19.10", "engine", "slot analysis crashed: %r" % (e,), status="undecided")
     winding_symmetry(prog, rep)
     polyline_points(prog, rep)
     outline_runs(prog, rep)
@@ -192,6 +197,65 @@ def edge_rasteriser(prog, rep):
         rep.fail("R19.9", "edge-rasteriser", "; ".join(sorted(set(und))[:2]) or "no extension of the scanline found", status="undecided", at=f.span, fn=f.path)
     else:
         rep.ok("R19.9", "edge-rasteriser", at=f.span, fn=f.path, detail={"extensions": n})
+
+
+def drain_slots(prog, rep):
+    """R19.10 every part of a triangle scanline is handed out: `ScanlineIntersections::next` (triangle) returns None only
+    on paths on which `try_take` of all three slots of `self.lines` (first, second, internal) came back empty, and a
+    yielding path returns the slot it took — the internal part with `internal_type`, the border parts as Stroke.  A slot
+    that is skipped under a side condition ("only triangles with a fill have an internal part") is never drawn: for a
+    collapsed triangle the internal part carries the stroke."""
+    SI = "embedded_graphics::primitives::triangle::scanline_intersections::ScanlineIntersections"
+    LT = "embedded_graphics::primitives::triangle::scanline_intersections::LineConfig"
+    try:
+        f = prog.method1(SI, "next", "core::iter::traits::iterator::Iterator")
+        li = field_index(prog, SI, "lines")
+        slots = {field_index(prog, LT, n): n for n in ("first", "second", "internal")}
+        it_i = field_index(prog, LT, "internal_type")
+    except Exception as e:
+        rep.fail("R19.10", "triangle:drain", "anchor lost: %s" % e, status="undecided")
+        return
+    try:
+        summs = Paths(prog, inline=lambda g: prog.is_new(g)).of(f)
+    except Unsupported as e:
+        rep.fail("R19.10", "triangle:drain", "cannot summarise: %s" % e, status="undecided", at=f.span, fn=f.path)
+        return
+    lines = ("field", P(1, "self"), li)
+    def slot_of(t):
+        t = strip_refs(t)
+        if t[0] == "call" and t[1].split("::")[-1] == "try_take" and len(t[3]) == 1:
+            a = strip_refs(t[3][0])
+            if a[0] == "field" and strip_refs(a[1]) == lines and a[2] in slots:
+                return slots[a[2]]
+        return None
+    bad, und, n_none, n_some = [], [], 0, 0
+    NONE_ = ("agg", "core::option::Option::None", ())
+    for sm in summs:
+        empty = {slot_of(fc[1]) for fc in sm.facts if fc[0] == "variant" and fc[2] == ("None",)} - {None}
+        r = strip_refs(sm.ret)
+        if r == NONE_:
+            n_none += 1
+            missing = sorted(set(slots.values()) - empty)
+            if missing:
+                bad.append("next() returns None without having found the %s part empty (conditions: %s)" % (", ".join(missing), "; ".join(show(fc[1], maxd=2)[:50] if isinstance(fc[1], tuple) else str(fc[1]) for fc in sm.facts)[:200]))
+        elif r[0] == "agg" and str(r[1]).endswith("Option::Some") and strip_refs(r[2][0])[0] == "agg" and len(strip_refs(r[2][0])[2]) == 2:
+            n_some += 1
+            line_, ty_ = (strip_refs(x) for x in strip_refs(r[2][0])[2])
+            sl = slot_of(line_[1]) if line_[0] == "payload" else None
+            if sl is None:
+                und.append("next() yields %s" % show(line_, maxd=3)[:100])
+            elif sl == "internal" and ty_ != ("field", lines, it_i):
+                bad.append("the internal part is yielded with %s instead of internal_type" % show(ty_, maxd=3))
+            elif sl != "internal" and not (ty_[0] == "agg" and str(ty_[1]).endswith("PointType::Stroke")):
+                bad.append("the %s border part is yielded as %s instead of Stroke" % (sl, show(ty_, maxd=3)))
+        else:
+            und.append("next() returns %s" % show(r, maxd=3)[:100])
+    if bad:
+        rep.fail("R19.10", "triangle:drain", "; ".join(sorted(set(bad))[:2]), at=f.span, fn=f.path)
+    elif und or n_none < 1 or n_some < 3:
+        rep.fail("R19.10", "triangle:drain", "; ".join(sorted(set(und))[:2]) or "expected three yielding paths and an ending path (%d / %d)" % (n_some, n_none), status="undecided", at=f.span, fn=f.path)
+    else:
+        rep.ok("R19.10", "triangle:drain", at=f.span, fn=f.path, detail={"yielding": n_some, "ending": n_none})
 
 
 def polyline_points(prog, rep):
